@@ -17,7 +17,7 @@ from collections import Counter
 
 import numpy as np
 
-from .. import cover, gen, sysgen
+from .. import core, cover, gen, sysgen
 
 LEVEL = 'exploration'
 JOBS = {'quick': 4, 'thorough': 16}
@@ -25,7 +25,7 @@ REQUIRED_MONITORS = ('interleaved_access', 'instances_vs_truth', 'access_consist
 REQUIRED_CLASSES = ('enumerated', 'random-long', 'species:multi-residue', 'species:repeated-residue',
                     'species:same-name-other-size', 'solvent-interleaved', 'order:permuted', 'api:files', 'api:tops',
                     'negative:absent-species', 'negative:pattern-at-end', 'negative:refused-then-system-used-again', 'api:tops+refused', 'adjacent-instances-of-a-merging-species',
-                    'api:open-handles', 'handle:shared-by-two-systems', 'handle:caller-reads-between-accesses')
+                    'api:open-handles', 'handle:shared-by-two-systems', 'handle:caller-reads-between-accesses', 'settings:warnings-as-errors')
 RULE = ('enumerated part: all sequences of length <= Lmax over {S1,S2,S3,S4,W} x all permutations of the loading order of '
         'the species present (Lmax = 6 thorough, 4 quick with <= 6 orders); random part: systems of 50..2000 molecules in '
         'block / alternating / random order. Non-trivial: at least 2 loaded species present or a multi-residue species '
@@ -146,8 +146,16 @@ def build(ctx, path, order, api, seq=None):
         return sysm
     s = System(path)
     if api != 'tops+refused':
+        # the caller may run with warnings turned into errors (every other system): the unchanged library recognises a
+        # topology without a word; a caller that is refused with a warning catches it and goes on with the same object
+        caller = core.next_settings(ctx, ('default', 'warnings-as-errors'))
         for k in order:
-            s.add_molecule_top(_tmp['tops'][k].copy())
+            try:
+                with core.settings(caller):
+                    s.add_molecule_top(_tmp['tops'][k].copy())
+            except Warning as exc:
+                ctx.violation('topology-refused-with-a-warning', f'{type(exc).__name__} under warnings-as-errors: {str(exc)[:150]}',
+                              witness={'sequence': list(seq or ())[:40], 'load_order': list(order)})
         return s
     # topologies that must be refused are offered between the good ones (as automatic discovery does with every
     # candidate file); each refusal must leave the system as it was
